@@ -1,5 +1,5 @@
 """C10  Saving and reloading the array state is lossless (Lean codec vs real content files)."""
-import os, vlib, e2e, sim, chk_C06
+import os, vlib, e2e, sim, chk_C06, fixcommon as fx
 
 STATIC_THEOREMS = [
     'SnapraidVerif.Codec.getVar_putVar',
@@ -116,6 +116,53 @@ def one_history(exe, root, seed, steps, stats):
     a.destroy()
     return None
 
+def emptied_disk_history(exe, root, seed, stats):
+    """a disk loses all its files while its longest extent reaches beyond every live file; a partial sync saves the
+    state with DELETED blocks still referenced by the parity: the saved state must keep that disk and those blocks
+    (judged by the C06 parity oracle on the reloaded state and by recovering a file of another disk)"""
+    rng = e2e.Rng(seed)
+    a = e2e.Arr(root, exe, ndisks=2 + rng.below(3), nparity=1 + rng.below(2), hashsize=rng.choice([16, 8]), ncontent=1 + rng.below(2))
+    s = sim.Sim(a, rng.fork(), weird_names=False)
+    big = rng.choice(a.disks)
+    for d in a.disks:
+        for i in range(1 + rng.below(2)):
+            a.write(d, 'f%d' % i, rng.bytes(a.block * (1 + rng.below(3)) + rng.below(2) * 17), s.tick())
+    a.write(big, 'zz_big', rng.bytes(a.block * (9 + rng.below(6))), s.tick())
+    r = s.sync()
+    cfg = 'ndisks=%d nparity=%d hashsize=%d emptied=%s seed=%d' % (a.ndisks, a.nparity, a.hashsize, big, seed)
+    def fail(msg, extra=''):
+        hist = '\n'.join(s.history); a.destroy()
+        return ('emptied-disk history (%s): %s' % (cfg, msg), '%s\n%s\n%s\nhistory:\n%s' % (cfg, msg, extra, hist))
+    if r.rc != 0:
+        a.destroy(); return None
+    snap = a.snapshot()
+    fx.wipe_disk(a, big); s.log('wipe all files of %s' % big)
+    r = s.run('sync', '-E', '-B', str(1 + rng.below(3)))
+    stats['emptied'] = stats.get('emptied', 0) + 1
+    if r.rc != 0:
+        a.destroy(); return None
+    blobs = [open(c, 'rb').read() for c in a.contents]
+    if any(b != blobs[0] for b in blobs):
+        return fail('content copies differ')
+    dec, reser = e2e.lean_decode([blobs[0]], 0)[0]
+    if not dec.ok or reser != blobs[0].hex():
+        return fail('Lean decode / re-serialisation of the saved state fails')
+    probs, st = s.invariant_problems(dec)
+    if probs:
+        return fail('the saved state lost blocks the parity still depends on: ' + probs[0], '\n'.join(probs[:6]))
+    # a file of another disk must still be recoverable from the reloaded state
+    others = [(d, rel) for (d, rel), v in snap.items() if d != big and v[0] == 'f' and len(v[1]) > 0]
+    # (per stripe: the lost block plus the DELETED block of the emptied disk whose data is gone = two unknowns)
+    if others and a.nparity >= 2:
+        d, rel = rng.choice(others)
+        os.unlink(a.path(d, rel)); s.log('lose %s/%r' % (d, rel))
+        f = s.run('fix', '-d', d)
+        if not os.path.isfile(a.path(d, rel)) or a.read(d, rel) != snap[(d, rel)][1]:
+            return fail('%s/%r is not recoverable after the state was saved and reloaded (fix exit %d): %s' % (d, rel, f.rc, [t for t in f.tags if 'unrecoverable' in t][:2]), f.out[-600:])
+        stats['emptied_recovered'] = stats.get('emptied_recovered', 0) + 1
+    a.destroy()
+    return None
+
 def main(tier, seed):
     chk = vlib.Check('C10', 'proof', tier, seed)
     chk.assumptions = ['the record-level round trip is proved for the primitive fields, block runs and the simple records; for whole files it is checked on every content file the binary produced in the generated histories (byte-identical re-serialisation by the Lean model)',
@@ -138,8 +185,11 @@ def main(tier, seed):
     from concurrent.futures import ThreadPoolExecutor
     def job(i):
         return i, one_history(exe, os.path.join(vlib.scratch(), 'h%d' % i), seed * 100000 + 50000 + i, steps, stats)
+    nemp = 24 if tier == 'quick' else 300
+    def job2(i):
+        return nhist + i, emptied_disk_history(exe, os.path.join(vlib.scratch(), 'e%d' % i), seed * 100000 + 55000 + i, stats)
     with ThreadPoolExecutor(vlib.NCPU) as ex:
-        res = list(ex.map(job, range(nhist)))
+        res = list(ex.map(job, range(nhist))) + list(ex.map(job2, range(nemp)))
     nbad = 0
     for i, r in res:
         if r:
@@ -151,7 +201,7 @@ def main(tier, seed):
             chk.violation('C10 static obligation failed: ' + o[0], o[0] + '\n' + o[2], False, 'static')
     chk.evaluations = stats.get('files', 0)
     chk.distinct = stats.get('files', 0)
-    chk.rule = ('every content file left by every command of %d seeded histories (grammar of C06): Lean decode -> Lean re-serialise must be byte-identical; all copies identical; decoded files/links/per-stripe info must equal `list -l` and `status -G -l` of the binary; `test-rewrite` byte-identical (1/3 of steps)' % nhist)
+    chk.rule = ('every content file left by every command of %d seeded histories (grammar of C06): Lean decode -> Lean re-serialise must be byte-identical; all copies identical; decoded files/links/per-stripe info must equal `list -l` and `status -G -l` of the binary; `test-rewrite` byte-identical (1/3 of steps); plus %d emptied-disk histories (a disk loses every file while its extent reaches beyond all live files, partial sync -E -B k saves the state): C06 parity oracle on the reloaded state and fix of a lost file of another disk' % (nhist, nemp))
     chk.samples = [dict(stats)]
     chk.corr['CODEC'] = dict(stats)
     chk.finish()
